@@ -18,12 +18,13 @@ Local Open Scope Z_scope.
 
 (* ------------------------------------------------------------------ C10 *)
 
-(* Known finding (known_findings.json, class "type-blind-identity-rewrite"): while folding e, a
-   fold rule outside the whitelist of type-safe rule shapes (Model.rule_okb) fires.  With the
-   current optimize.rs these are exactly the identity rewrites of fold_binary's second pass --
+(* Known finding (known_findings.json, class "type-blind-identity-rewrite"): while folding e, one
+   of the eight identity rewrites of fold_binary's second pass fires (Model.known_identity_rule):
    `x * 0 -> 0`, `0 * x -> 0`, `x * 1 -> x`, `1 * x -> x`, `x + 0 -> x`, `0 + x -> x`, `x - 0 -> x`,
-   `x / 1 -> x` for a non-literal x (after the sub-expressions have been folded) -- which assume
-   that x is an integer.  They are pinned by optimize.rs's own unit tests and are not repaired. *)
+   `x / 1 -> x` for a non-literal x (after the sub-expressions have been folded).  They assume that
+   x is an integer; they are pinned by optimize.rs's own unit tests and are not repaired.  Any
+   other rule of the regenerated table must be in the whitelist of type-safe rule shapes
+   (Model.rule_okb), or the proof of C10_fold_sound breaks (ProofsC10.fold_phases_classified). *)
 Definition Known_C10_identity (O : fops) (e : expr O) : Prop := identity_fires O e = true.
 
 (* For every expression outside that class: the folder returns (it does not panic), and on every
